@@ -109,8 +109,9 @@ class State(object):
         self._name = name
         self.final = final
         self.ignore_invalid_triggers = ignore_invalid_triggers
-        self.on_enter = listify(on_enter) if on_enter else []
-        self.on_exit = listify(on_exit) if on_exit else []
+        # own lists: a list handed to several states (or kept by the caller) must not be shared between them
+        self.on_enter = list(listify(on_enter)) if on_enter else []
+        self.on_exit = list(listify(on_exit)) if on_exit else []
 
     @property
     def name(self):
@@ -235,9 +236,10 @@ class Transition(object):
         """
         self.source = source
         self.dest = dest
-        self.prepare = [] if prepare is None else listify(prepare)
-        self.before = [] if before is None else listify(before)
-        self.after = [] if after is None else listify(after)
+        # own lists: one add_transition call with several sources creates several transitions from the same arguments
+        self.prepare = [] if prepare is None else list(listify(prepare))
+        self.before = [] if before is None else list(listify(before))
+        self.after = [] if after is None else list(listify(after))
 
         self.conditions = []
         if conditions is not None:
